@@ -59,14 +59,18 @@ theorem generic_shape :
 /-- the full condition: every method touching the shared maps holds a lock of the mapper -/
 def C05_kindmapper_full : Prop := kindMapperMethods.all (fun m => !m.touches || m.holdsLock) = true
 
-/-- **kind_mapper_unlocked_methods_known**: `pgutil.InMemoryKindMapper` has NO mutex; these methods touch its maps
-unsynchronised, and `Put` (reached from `AssertKinds`, i.e. from translating CREATE with an unknown kind) WRITES them.
-Concurrent translations are race-free only while no new kind is asserted (known finding, see known_findings.json). -/
-theorem kind_mapper_unlocked_methods_known :
-    (kindMapperMethods.filter (fun m => m.touches && !m.holdsLock)).map (·.name) = ["MapKind", "MapKindID", "Put", "mapKinds"]
-    ∧ (kindMapperMethods.filter (·.writes)).map (·.name) = ["Put"]
-    ∧ kindMapperMutexFields = [] := by decide
+/-- **kind_mapper_locked_or_known**: either every method that touches the shared maps holds the mapper's lock (the
+state after hooks/C05-fix.patch), or the mapper is in exactly the state known on the unchanged tree: NO mutex at all,
+the four methods below touch the maps unsynchronised and `Put` (reached from `AssertKinds`, i.e. from translating CREATE
+with an unknown kind) writes them — concurrent translations are then race-free only while no new kind is asserted
+(known finding, see known_findings.json). A method that forgets the lock once the mutex exists satisfies neither side. -/
+theorem kind_mapper_locked_or_known :
+    C05_kindmapper_full ∨
+    ((kindMapperMethods.filter (fun m => m.touches && !m.holdsLock)).map (·.name) = ["MapKind", "MapKindID", "Put", "mapKinds"]
+      ∧ (kindMapperMethods.filter (·.writes)).map (·.name) = ["Put"] ∧ kindMapperMutexFields = []) := by
+  unfold C05_kindmapper_full; decide
 
-theorem c05_kindmapper_full_refuted : ¬ C05_kindmapper_full := by unfold C05_kindmapper_full; decide
+/-- only `Put` writes the shared fields, before and after the fix -/
+theorem kind_mapper_single_writer : (kindMapperMethods.filter (·.writes)).map (·.name) = ["Put"] := by decide
 
 end Dawgs.C05.Facts
